@@ -20,8 +20,8 @@ for p in props:
             "evidence_file": "evidence/%s.json" % pid,
             "replay_cmd_template": "./check %s --replay {path}" % pid,
             "engine": "lean-proof+correspondence",
-            "level_claimed": {"category": "proof", "text": m.LEVEL_TEXT, "design_ref": "DESIGN.md §5 " + pid},
-            "level_note": m.LEVEL_NOTE,
+            "level_claimed": {"category": "proof", "text": getattr(m, "LEVEL_TEXT", "Lean 4 theorems about an executable model of the anchored code, tied to the code by a correspondence check (details in DESIGN.md §10)"), "design_ref": "DESIGN.md §5 " + pid},
+            "level_note": getattr(m, "LEVEL_NOTE", "Trusted: Lean kernel (axioms propext, Classical.choice, Quot.sound), harness adapter/oracle, sampled correspondence."),
             "technique": getattr(m, "TECHNIQUE", "Lean 4 theorems on an executable model + correspondence check against the real code"),
         })
     else:
